@@ -102,3 +102,24 @@ Proof.
   - apply andb_true_iff in H. destruct H as [H1 H2]. apply N.eqb_eq in H1. apply IH in H2. congruence.
   - inversion H; subst. rewrite N.eqb_refl. apply list_eqb_refl.
 Qed.
+
+(* ------------------------------------------------------------------ *)
+(* the whitespace set of StringUtils::TrimLeft, probed from the current headers by
+   tools/gentables_json.cpp (every unit of every width is tried): exactly space, LF, TAB, CR --
+   and it is the set the model's [is_ws] decides *)
+Lemma ws_set_exact :
+  ws_probe_c8 = [9; 10; 13; 32] /\ ws_probe_c16 = [9; 10; 13; 32] /\
+  ws_probe_c32 = [9; 10; 13; 32] /\ ws_probe_wc = [9; 10; 13; 32].
+Proof. repeat split; reflexivity. Qed.
+
+Lemma is_ws_probe : forall c, is_ws c = true <-> In c ws_probe_c8.
+Proof.
+  intros c. unfold is_ws. change ws_space with 32. change ws_line with 10. change ws_tab with 9. change ws_cr with 13.
+  change ws_probe_c8 with [9; 10; 13; 32]. cbn [In]. split.
+  - intros H. repeat (apply orb_true_iff in H; destruct H as [H|H]); apply N.eqb_eq in H; subst; auto.
+  - intros [H|[H|[H|[H|[]]]]]; subst; reflexivity.
+Qed.
+
+(* wchar_t is four bytes on the modelled platform: width 3 takes the UTF-32 paths of width 2 *)
+Lemma wchar_is_utf32 : jc_sizeof_wchar = 4 /\ cu_bits 3 = cu_bits 2 /\ forall c, to_utf 3 c = to_utf 2 c.
+Proof. repeat split. Qed.
